@@ -149,6 +149,21 @@ def work_case(args):
             trace.append({"t": tid, "ev": "Done", "post": final, "n2": n2, "s2": so2[:300] if n2 else ""})
         return trace
 
+    if mode == "det":
+        import hashlib
+        n = 12 if case.get("tie") else 4
+        tr = [init]
+        outs = {}
+        for i in range(n):
+            if i:
+                rc, so, se = _plan(mod, case["dev"], case)
+            dig = hashlib.sha1(json.dumps([rc, so, se]).encode()).hexdigest()
+            outs.setdefault(dig, [rc, so, se])
+            tr.append({"t": tid, "ev": "Run", "out": dig})
+        out["traces"].append(tr)
+        out["script"] = "\n=== other run ===\n".join(v[1] for v in outs.values())
+        out["nruns"] = n
+        return out
     if mode == "conv":
         rep = mod.Replica(case["dev"])
         tr = [init]
@@ -203,7 +218,7 @@ def run_cases(bins, dialect, cases, mode="conv"):
 
 # ------------------------------------------------------------------ TLC validation
 
-def validate(dialect, results, tag="t"):
+def validate(dialect, results, tag="t", spec=None):
     """Write all traces into <=NCPU ndjson files and run the trace spec on each.
     Returns (list of VERR records, number of traces, number of events, TLC results)."""
     D = DIALECTS[dialect]
@@ -224,7 +239,8 @@ def validate(dialect, results, tag="t"):
         paths.append(p)
 
     def one(p):
-        return C.run_tlc(DEV, D["trace"], D["trace"] + ".cfg", env={"TRACE": p}, timeout=3000, heap="3g")
+        return C.run_tlc(DEV, spec or D["trace"], (spec or D["trace"]) + ".cfg", env={"TRACE": p},
+                         timeout=3000, heap="3g")
 
     with ThreadPoolExecutor(C.NCPU) as ex:
         rs = list(ex.map(one, paths))
